@@ -109,7 +109,7 @@ CHECKS = {
         "require_ops": ["strict.eval"],
     },
     "C17": {
-        "quick": {"gen": [G("MC_C15", "MC_C17_quick.cfg"), G("MC_C15", "MC_C15_wide.cfg"), G("MC_C15", "MC_C17_tail.cfg")], "drive": [D("graphs", 3000, only=["strict.is_", "hyper.", "hook.node_adjacency"])], "profiles": ["debug", "release"]},
+        "quick": {"gen": [G("MC_C15", "MC_C17_quick.cfg"), G("MC_C15", "MC_C17_iface.cfg"), G("MC_C15", "MC_C15_wide.cfg"), G("MC_C15", "MC_C17_tail.cfg")], "drive": [D("graphs", 3000, only=["strict.is_", "hyper.", "hook.node_adjacency"])], "profiles": ["debug", "release"]},
         "thorough": {"gen": [G("MC_C15", "MC_C17_thorough.cfg"), G("MC_C15", "MC_C15_wide.cfg"), G("MC_C15", "MC_C17_tail.cfg")], "drive": [D("graphs", 50000, only=["strict.is_", "hyper.", "hook.node_adjacency"])], "profiles": ["debug", "release"]},
         "require_ops": ["strict.is_acyclic", "strict.is_monogamous", "hyper.in_degree", "hyper.out_degree", "hyper.is_acyclic"],
     },
